@@ -23,7 +23,7 @@ EXPLANATION = (
 
 
 def run(rep):
-    engine.run_units(rep, [u for u in k17_spanner.units(tier()) if u.get("unit", "").startswith(("K18c", "K17a"))] + k17b_bfs.units(tier()) + k18b_closing.units(tier()))
+    engine.run_units(rep, [u for u in k17_spanner.units(tier()) if u.get("unit", "").startswith(("K18c", "K17a", "K17c"))] + k17b_bfs.units(tier()) + k18b_closing.units(tier()))
     common.native_filtered(rep, "e3_approx", KINDS, args=["--only", "approx"],
                            functions={"approx_mcb_sva_signed": "bounded", "approx_mcb_sva_fvs_trees": "bounded",
                                       "approx_mcb_sva_iso_trees": "bounded"},
